@@ -1819,6 +1819,13 @@ def generate(unit_path, repo=REPO, inline=()):
                         rules_item = [apply_rename(r_, rn_map) if r_.startswith(('S:', 'SW:')) else r_ for r_ in rules_item]
                     text = apply_rewrites(raw_in, log, rules_item, keep_eq=bool(opts.get('eq')))
                     if it['kind'] == 'fn' and it['body_open'] is not None:
+                        # closures that no rewrite rule turned into a loop or bound to a contract stay OPAQUE for the
+                        # verifier (their result is unknown): counted, so that a proof failure in such a function is
+                        # not mistaken for a counterexample (bin/check)
+                        mt_ = rs.mask(text)
+                        ncl = len([1 for cm_ in re.finditer(r'(?:[(,=]|\bmove)\s*\|[^|\n]*\|(?!\s*->)(?!\|)', mt_)])
+                        if ncl:
+                            log.append(('OPAQUE-CLOSURE', ncl))
                         text = splice_fn(text, ann, log)
                     lit_sources.append(text)
                 if opts.get('vis') == 'priv':
